@@ -626,6 +626,11 @@ func runTransfer(t *testing.T, ksc KScenario, res *KResult) {
 				}
 				b = append(b, wPayload(KMix(sc.Seed, 0xd6, uint64(i)), 0, d.Size)...)
 				err := conn.SendDatagram(b)
+				// the application's buffer is its own again once the call has returned (a sender that reuses one scratch
+				// buffer for a burst of messages): what was handed over must not change with it
+				for k := range b {
+					b[k] = 0xee
+				}
 				dgs[i].sendErr = err
 				dgs[i].sent = err == nil
 			}()
